@@ -15,7 +15,7 @@ os.environ['VRT_PLAIN'] = '1'
 sys.path.insert(0, os.path.dirname(os.path.dirname(os.path.abspath(__file__))))
 
 
-def run(modname, fname, argreprs):
+def run(modname, fname, argreprs, witness=False):
     import importlib
     sys.setrecursionlimit(10000)
     mod = importlib.import_module(modname)
@@ -29,6 +29,8 @@ def run(modname, fname, argreprs):
     for line in (fn.__doc__ or '').splitlines():
         line = line.strip()
         if line.startswith('pre:'):
+            if witness and line[4:].strip().startswith('not ('):
+                continue                      # the known-finding exclusion itself: the witness lies inside it by definition
             if not eval(line[4:].strip(), env):
                 print("REPLAY: precondition not met: %s" % line)
                 return 4
@@ -43,4 +45,4 @@ def run(modname, fname, argreprs):
 
 
 if __name__ == '__main__':
-    sys.exit(run(sys.argv[1], sys.argv[2], json.loads(sys.argv[3])))
+    sys.exit(run(sys.argv[1], sys.argv[2], json.loads(sys.argv[3]), witness='--witness' in sys.argv[4:]))
